@@ -116,6 +116,71 @@ func (fc *failClosed) check(f *FuncInfo, label string) {
 	an := &Analysis{Must: true, Entry: 0, Node: func(n ast.Node, s State) State { return s }, Edge: fc.edgeFn(fl)}
 	fl.solve(an)
 	rets := returnsIn(f)
+	// a returned error VARIABLE can be nil too: `var err error; for ... { continue }; return err`. Such a return is
+	// accepted only if a primitive succeeded, the variable is known to be non-nil here, or it holds a primitive's result.
+	nv := 0
+	for _, ret := range rets {
+		if len(ret.Results) == 0 || returnsNil(info, ret) {
+			continue
+		}
+		last := ast.Unparen(ret.Results[len(ret.Results)-1])
+		id, ok := last.(*ast.Ident)
+		if !ok {
+			continue
+		}
+		v, ok := info.Uses[id].(*types.Var)
+		if !ok || v.Type().String() != "error" || v.Pkg() == nil || v.Parent() == v.Pkg().Scope() {
+			continue
+		}
+		if fc.exempt != nil && fc.exempt(f, ret) {
+			continue
+		}
+		const verified, nonNil, fromPrim = 1, 2, 4
+		base := fc.edgeFn(fl)
+		av := &Analysis{Must: true, Entry: 0,
+			Node: func(n ast.Node, st State) State {
+				if as, ok := n.(*ast.AssignStmt); ok {
+					for _, l := range as.Lhs {
+						if objOfIdent(info, l) == types.Object(v) {
+							st &^= nonNil | fromPrim
+							if len(as.Rhs) == 1 && fc.primIn(info, as.Rhs[0]) {
+								st |= fromPrim
+							}
+						}
+					}
+				}
+				return st
+			},
+			Edge: func(b *cfg.Block, i int, st State) State {
+				if base(b, i, 0)&1 != 0 {
+					st |= verified
+				}
+				for _, ft := range fl.edgeFacts(b, i) {
+					be, ok := ast.Unparen(ft.E).(*ast.BinaryExpr)
+					if !ok {
+						continue
+					}
+					var x ast.Expr
+					if isNilIdent(info, be.Y) {
+						x = be.X
+					} else if isNilIdent(info, be.X) {
+						x = be.Y
+					}
+					if x != nil && objOfIdent(info, x) == types.Object(v) && (be.Op == token.NEQ && ft.Pos || be.Op == token.EQL && !ft.Pos) {
+						st |= nonNil
+					}
+				}
+				return st
+			}}
+		fl.solve(av)
+		st, reach := fl.before(av, ret)
+		if !reach {
+			continue
+		}
+		nv++
+		c.verdictIf(st&(verified|nonNil|fromPrim) != 0, fc.rule, f, fmt.Sprintf("%sreturn-var#%d", label, nv), ret.Pos(),
+			"the returned error is known to be non-nil here, or a verification primitive succeeded / produced it", "the returned error variable can still be nil on this path although no signature verification succeeded (e.g. a loop over candidate keys that skipped every one): a signature by an unknown key is accepted")
+	}
 	for i, ret := range rets {
 		if len(ret.Results) == 0 || !returnsNil(info, ret) {
 			continue
